@@ -1,5 +1,5 @@
 #!/bin/sh
 # dev helper: extract + verus one unit
 u=$1; shift
-./vx/target/debug/vx extract --repo ${REPO:-/repo} --unit units/$u.vrs --out build/$u.rs --log build/$u.log.json || exit 2
+./vx/target/release/vx extract --repo ${REPO:-/repo} --unit units/$u.vrs --out build/$u.rs --log build/$u.log.json || exit 2
 cd build && verus $u.rs --edition 2024 --triggers-mode silent "$@" 2>&1
